@@ -71,7 +71,7 @@ Section R.
   Theorem stop_state_good input : let '(s, roots, _) := stop_state pin input in good pin s roots.
   Proof.
     unfold stop_state. pose proof (stop_world_good input) as H.
-    destruct (stop_world pin input) as [[w want] info]. cbn [fst] in H.
+    destruct (stop_world pin input) as [[w want] [[[res nrem] time] hooked]]. cbn [fst] in H.
     apply reorder_good. exact H.
   Qed.
 End R.
